@@ -104,6 +104,11 @@ add("C02", "exploration",
     "Trusted: props/c02/codec.go (the harness's own writers/readers and spellability predicates). Seven known findings live in the go-text dependency (module cache, outside /repo) and are routed around.",
     "property-based testing + fuzzing (rapid, go test -fuzz) with a write/read round-trip oracle and independent readers", "DESIGN.md §3 C02")
 
+add("C19", "exploration",
+    "Three families of generated input: (1) byte strings and structured mutations of valid files as CSV/TSV/LTSV/FIXED/JSON/JSONL data under a generated option vector, loaded five different ways; (2) syntactically valid programs feeding boundary arguments (0, -1, int64 bounds, 1e308, NaN/Inf spellings, NULL, '', wrong types, long strings) to every clause and every built-in function (enumerated at run time) and to all output formats x column-name shapes; (3) 26 file-system states (missing/unreadable file, directory in place of a file, read-only or removed working directory, dangling symlink, FIFO, --out targets, missing --source/--repository) exercised by the real binary running as an unprivileged uid. Oracle: the run returns, no panic escapes, no Fatal Error, the exit/error code is a documented one, heap growth stays bounded, and every loaded or cached table is rectangular. Native fuzz targets FuzzLoad/FuzzProgram share the oracles.",
+    "Hang = 20 s watchdog hit that repeats on an isolated retry with 80 s; size-like arguments of padding/format functions are capped at 1e5 and generated tables at 1500 columns so that legitimate work stays small.",
+    "fuzzing and property-based testing (rapid, go test -fuzz) with a no-internal-failure oracle", "DESIGN.md §3 C19")
+
 NOT_YET = {}
 
 def main():
